@@ -392,16 +392,40 @@ pub fn run(e: &Engine) {
         }
         return;
     }
-    let runs = e.tier.pick(60, 2500) as usize;
+    let runs = e.tier.pick(240, 6000) as usize;
     let mut fps = vec![];
     let mut samples = vec![];
     let (mut total_overlap, mut total_ok, mut total_failed, mut total_undos, mut procs) = (0u64, 0u64, 0u64, 0u64, 0u64);
     let mut n = 0u64;
-    for i in 0..runs {
-        let processes = i % 4 == 3;
-        let wl = crate::engine::draw(&strategy(processes), e.seed.wrapping_add(0xc17).wrapping_add(i as u64 * 104_729));
+    let workloads: Vec<Workload> = (0..runs)
+        .map(|i| crate::engine::draw(&strategy(i % 4 == 3), e.seed.wrapping_add(0xc17).wrapping_add(i as u64 * 104_729)))
+        .collect();
+    // several workloads at a time: the workers mostly wait for the database lock
+    let results: std::sync::Mutex<Vec<(usize, Result<Audit, Failure>)>> = std::sync::Mutex::new(vec![]);
+    let next = std::sync::atomic::AtomicUsize::new(0);
+    let stop = std::sync::atomic::AtomicBool::new(false);
+    std::thread::scope(|s| {
+        for _ in 0..4 {
+            s.spawn(|| loop {
+                let i = next.fetch_add(1, std::sync::atomic::Ordering::Relaxed);
+                if i >= workloads.len() || stop.load(std::sync::atomic::Ordering::Relaxed) {
+                    break;
+                }
+                let r = run_workload(&workloads[i]);
+                if matches!(&r, Err(f) if f.signature != "infra") {
+                    stop.store(true, std::sync::atomic::Ordering::Relaxed);
+                }
+                results.lock().unwrap().push((i, r));
+            });
+        }
+    });
+    let mut results = results.into_inner().unwrap();
+    results.sort_by_key(|(i, _)| *i);
+    for (i, r) in results {
+        let wl = &workloads[i];
+        let processes = wl.processes;
         n += 1;
-        match run_workload(&wl) {
+        match r {
             Ok(a) => {
                 total_overlap += a.overlapping_pairs as u64;
                 total_ok += a.ok_commits as u64;
@@ -419,7 +443,7 @@ pub fn run(e: &Engine) {
             }
             Err(f) if f.signature == "infra" => e.note(format!("run skipped: {}", f.msg)),
             Err(f) => {
-                e.record_violation("stress", f, &serde_json::to_value(&wl).unwrap());
+                e.record_violation("stress", f, &serde_json::to_value(wl).unwrap());
                 break;
             }
         }
